@@ -44,6 +44,12 @@ Proof.
       rewrite wob_small by lia. constructor; [|constructor]. apply W; [exact Hb|lia].
 Qed.
 
+Lemma bow_bytes_ok ws : bytes_ok (bytes_of_words ws).
+Proof. induction ws as [|w r IH]; [constructor|]. change (bytes_of_words (w :: r)) with (le_encode 8 w ++ bytes_of_words r). apply Forall_app. split; [apply le_encode_bytes|exact IH]. Qed.
+
+Lemma zeros_bytes_ok n : bytes_ok (repeat 0 n).
+Proof. apply Forall_forall. intros x Hx. apply repeat_spec in Hx. subst x. lia. Qed.
+
 Lemma bow_zeros n : bytes_of_words (repeat 0 n) = repeat 0 (8 * n).
 Proof.
   induction n as [|n IH]; [reflexivity|]. cbn [repeat]. unfold bytes_of_words in *. cbn [flat_map]. rewrite IH.
@@ -126,7 +132,7 @@ Definition P_wp (f : nat) : Prop := forall D cap rl a src v fc w',
   wf_ptr m src -> aligned src -> caligned src -> ctag_ok m src -> den true m 0 [] src v -> cvdom v = true ->
   write_ptr f true (dstw D cap m rl) 0 a InSrc src fc = Ok w' ->
   exists word body cap' rl',
-    w' = dstw (put_word D a word ++ body) cap' m rl' /\ hinv (D ++ body) /\
+    w' = dstw (put_word D a word ++ body) cap' m rl' /\ hinv (D ++ body) /\ bytes_ok body /\
     forall pre' tail, zlen pre' = zlen D -> word_is pre' a word -> zlen (pre' ++ body ++ tail) <= BOUND ->
       reads_as (pre' ++ body ++ tail) a v.
 
@@ -139,7 +145,7 @@ Definition P_cs (f : nat) : Prop := forall D cap rl dst s ws vs A dn pn w',
   exists pwords kids cap' rl',
     zlen pwords = pn /\
     w' = dstw (set_slots D A (resize_words ws (Z.to_nat dn) ++ pwords) ++ kids) cap' m rl' /\
-    hinv (D ++ kids) /\
+    hinv (D ++ kids) /\ bytes_ok kids /\
     forall pre' tail, zlen pre' = zlen D ->
       sub pre' A (8 * (dn + pn)) = bytes_of_words (resize_words ws (Z.to_nat dn) ++ pwords) ->
       zlen (pre' ++ kids ++ tail) <= BOUND ->
